@@ -6,6 +6,7 @@ import (
 	"crypto/sha256"
 	"fmt"
 	"io"
+	"io/ioutil"
 	"sync"
 
 	"github.com/dsnet/compress/brotli"
@@ -264,6 +265,73 @@ func runC19(r *vhlib.Run) {
 						c.Name, i, len(oa), len(alone[i]), j, len(ob), len(alone[j])), map[string]interface{}{"codec": c.Name, "stream_a": vhlib.Hex(streams[i][:min(len(streams[i]), 200)]), "stream_b": vhlib.Hex(streams[j][:min(len(streams[j]), 200)])})
 				}
 			}
+		}
+	}
+	// an instance that was closed and is reused through Reset must not share anything with
+	// instances created in between (pools that keep a reference after release):
+	//   a := New(s1); read; a.Close(); b := New(s2); a.Reset(s3); a and b take turns
+	turn := func(a, b io.Reader, r *vhlib.Run) (oa, ob []byte) {
+		bufA, bufB := make([]byte, 1+r.Rng.Intn(700)), make([]byte, 1+r.Rng.Intn(700))
+		var ea, eb error
+		for (ea == nil || eb == nil) && len(oa) < 64<<20 && len(ob) < 64<<20 {
+			if ea == nil {
+				var n int
+				n, ea = a.Read(bufA)
+				oa = append(oa, bufA[:n]...)
+			}
+			if eb == nil {
+				var n int
+				n, eb = b.Read(bufB)
+				ob = append(ob, bufB[:n]...)
+			}
+		}
+		return
+	}
+	for _, c := range codecs() {
+		for k := 0; k < 6; k++ {
+			s1, s2, s3 := c.Valid(r.Rng, 3000).Data, c.Valid(r.Rng, 6000).Data, c.Valid(r.Rng, 6000).Data
+			want2, _ := ioutil.ReadAll(c.New(bytes.NewReader(s2)))
+			want3, _ := ioutil.ReadAll(c.New(bytes.NewReader(s3)))
+			a := c.New(bytes.NewReader(s1))
+			if k%2 == 0 {
+				io.Copy(ioutil.Discard, a)
+			}
+			a.Close()
+			b := c.New(bytes.NewReader(s2))
+			a.Reset(bytes.NewReader(s3))
+			oa, ob := turn(a, b, r)
+			r.Eval("closed-then-reset-vs-new:"+c.Name, true, []byte(fmt.Sprint(c.Name, k)), s2, s3)
+			if !bytes.Equal(oa, want3) || !bytes.Equal(ob, want2) {
+				r.Violate("result-differs-when-interleaved", fmt.Sprintf("%s: a closed Reader reused through Reset and a Reader created in between: %d/%d and %d/%d bytes", c.Name, len(oa), len(want3), len(ob), len(want2)),
+					map[string]interface{}{"codec": c.Name, "history": "a=New(s1); a.Close(); b=New(s2); a.Reset(s3); alternate Reads", "s2": vhlib.Hex(s2[:min(len(s2), 200)]), "s3": vhlib.Hex(s3[:min(len(s3), 200)])})
+			}
+		}
+	}
+	for k := 0; k < 6; k++ {
+		mk := func() ([]byte, []byte) {
+			s, p, _ := makeXFStream(randXWConfig(r.Rng), randXWOps(r.Rng, 3+r.Rng.Intn(10), 300))
+			return s, p
+		}
+		s1, _ := mk()
+		s2, p2 := mk()
+		s3, p3 := mk()
+		a, err := xflate.NewReader(bytes.NewReader(s1), nil)
+		if err != nil {
+			continue
+		}
+		if k%2 == 0 {
+			io.Copy(ioutil.Discard, a)
+		}
+		a.Close()
+		b, err := xflate.NewReader(bytes.NewReader(s2), nil)
+		if err != nil || a.Reset(bytes.NewReader(s3)) != nil {
+			continue
+		}
+		oa, ob := turn(a, b, r)
+		r.Eval("closed-then-reset-vs-new:xflate", true, []byte(fmt.Sprint(k)), s2, s3)
+		if !bytes.Equal(oa, p3) || !bytes.Equal(ob, p2) {
+			r.Violate("result-differs-when-interleaved", fmt.Sprintf("xflate: a closed Reader reused through Reset and a Reader created in between: %d/%d and %d/%d bytes", len(oa), len(p3), len(ob), len(p2)),
+				map[string]interface{}{"codec": "xflate", "history": "a=New(s1); a.Close(); b=New(s2); a.Reset(s3); alternate Reads", "s2": vhlib.Hex(s2), "s3": vhlib.Hex(s3)})
 		}
 	}
 	r.Notes["race_detector"] = raceEnabled
